@@ -497,3 +497,82 @@ def random_history(rng, length, classes=None, p_sub=0.3, weird=0.05):
         else:
             ops.append(turns(ref(LAYOUT["C"] + LAYOUT["S"]), rng.choice([-3, -1, 0, 1, 2, 5])))
     return ops
+
+
+# ---------------------------------------------------------------------------
+# the check driver shared by C01, C04, C05, C15
+def _what_class(what):
+    import re
+    w = re.sub(r"[A-Za-z]+\((?:[^()]|\([^()]*\))*\)", "<obj>", what)
+    return re.sub(r"-?\d+", "N", w)[:120]
+
+
+def oracle_search(pid, histories, deep=False, limit=10):
+    """histories: list of (ops, nslots).  -> list of failing inputs (dicts for flow.conclude)"""
+    if not histories:
+        return []
+    out = run_oracle(pid.lower() + ".py", {"histories": [{"ops": o, "nslots": n} for o, n in histories], "deep": deep})
+    found, seen = [], set()
+    for f in out["failures"]:
+        key = {"check": f["check"], "what": _what_class(f["what"]),
+               "zero_length": any(o[0] == "dom" and o[4] == 0 for o in f["ops"])}
+        k = json.dumps(key, sort_keys=True)
+        if k in seen:
+            continue
+        seen.add(k)
+        found.append({"key": key, "input": {"ops": f["ops"], "nslots": f["nslots"]}, "what": f["what"],
+                      "snippet": snippet(f["ops"], f["nslots"])})
+        if len(found) >= limit:
+            break
+    return found
+
+
+def run_check(ctx, pid, batches, rule, partial=(), refuted=()):
+    """batches(ctx) -> list of (label, histories, nslots, watch)."""
+    from common import prove, ensure_model_runner
+    from flow import conclude
+    res = prove(ctx)
+    runner = ensure_model_runner()
+    diffs, all_batches = [], []
+    if runner.ok:
+        all_batches = batches(ctx)
+        for label, hists, nslots, watch in all_batches:
+            diffs += correspond_histories(ctx, label, hists, nslots, watch, jobs=16)
+    ctx.cov["rule"] = rule
+    ctx.cov["partial"] = list(partial)
+    if refuted:
+        ctx.cov["refuted_in_model"] = list(refuted)
+    ctx.cov["exhaustive"] = False
+
+    def search(diffs):
+        cands = []
+        # (a) the shrunk disagreements and the disagreeing prefixes themselves
+        for ops, nslots, watch in shrink_diffs(diffs, limit=3):
+            cands.append((ops, nslots))
+        for d in diffs[:40]:
+            _, nslots, ops, _ = d[1][1]
+            k = first_divergence(d[2], d[3])
+            cands.append((ops[:k + 1], nslots))
+        found = oracle_search(pid, cands, deep=True)
+        if found:
+            return found
+        # (c) the enumerators against the oracle (bounded)
+        budget = 4000 if ctx.tier == "quick" else 40000
+        for label, hists, nslots, watch in all_batches:
+            step = max(1, len(hists) // budget)
+            found += oracle_search(pid, [(h, nslots) for h in hists[::step]][:budget], deep=False)
+            if found:
+                break
+        return found
+
+    conclude(ctx, res, runner, diffs, search)
+
+
+def replay(pid, data):
+    inp = data.get("input")
+    if not inp:
+        print("replay file names a broken proof/correspondence link only:", json.dumps(data.get("broken_links"))[:2000])
+        return 1
+    out = run_oracle(pid.lower() + ".py", {"histories": [inp], "deep": True})
+    print(json.dumps(out))
+    return 1 if out["failures"] else 0
